@@ -711,38 +711,38 @@ void DOMDocumentImpl::removeRange(DOMRangeImpl* range)
 */
 bool DOMDocumentImpl::isKidOK(const DOMNode *parent, const DOMNode *child)
 {
-      static int kidOK[14];
-
-      if (kidOK[DOMNode::ATTRIBUTE_NODE] == 0)
-      {
-          kidOK[DOMNode::DOCUMENT_NODE] =
-              1 << DOMNode::ELEMENT_NODE |
-              1 << DOMNode::PROCESSING_INSTRUCTION_NODE |
-              1 << DOMNode::COMMENT_NODE |
-              1 << DOMNode::DOCUMENT_TYPE_NODE;
-
-          kidOK[DOMNode::DOCUMENT_FRAGMENT_NODE] =
-              kidOK[DOMNode::ENTITY_NODE] =
-              kidOK[DOMNode::ENTITY_REFERENCE_NODE] =
-              kidOK[DOMNode::ELEMENT_NODE] =
+      // which kinds of children each kind of node accepts, indexed by node type
+      // (a constant table: it used to be filled lazily, which raced when two
+      // threads did their first DOM insertion at the same time)
+      static const int elementLikeKids =
               1 << DOMNode::ELEMENT_NODE |
               1 << DOMNode::PROCESSING_INSTRUCTION_NODE |
               1 << DOMNode::COMMENT_NODE |
               1 << DOMNode::TEXT_NODE |
               1 << DOMNode::CDATA_SECTION_NODE |
               1 << DOMNode::ENTITY_REFERENCE_NODE;
+      static const int kidOK[14] =
+      {
+          0
+          , elementLikeKids                                   // ELEMENT_NODE                = 1
+          , 1 << DOMNode::TEXT_NODE |
+            1 << DOMNode::ENTITY_REFERENCE_NODE               // ATTRIBUTE_NODE              = 2
+          , 0                                                 // TEXT_NODE                   = 3
+          , 0                                                 // CDATA_SECTION_NODE          = 4
+          , elementLikeKids                                   // ENTITY_REFERENCE_NODE       = 5
+          , elementLikeKids                                   // ENTITY_NODE                 = 6
+          , 0                                                 // PROCESSING_INSTRUCTION_NODE = 7
+          , 0                                                 // COMMENT_NODE                = 8
+          , 1 << DOMNode::ELEMENT_NODE |
+            1 << DOMNode::PROCESSING_INSTRUCTION_NODE |
+            1 << DOMNode::COMMENT_NODE |
+            1 << DOMNode::DOCUMENT_TYPE_NODE                  // DOCUMENT_NODE               = 9
+          , 0                                                 // DOCUMENT_TYPE_NODE          = 10
+          , elementLikeKids                                   // DOCUMENT_FRAGMENT_NODE      = 11
+          , 0                                                 // NOTATION_NODE               = 12
+          , 0
+      };
 
-          kidOK[DOMNode::ATTRIBUTE_NODE] =
-              1 << DOMNode::TEXT_NODE |
-              1 << DOMNode::ENTITY_REFERENCE_NODE;
-
-          kidOK[DOMNode::PROCESSING_INSTRUCTION_NODE] =
-              kidOK[DOMNode::COMMENT_NODE] =
-              kidOK[DOMNode::TEXT_NODE] =
-              kidOK[DOMNode::CDATA_SECTION_NODE] =
-              kidOK[DOMNode::NOTATION_NODE] =
-              0;
-      }
       int p=parent->getNodeType();
       int ch = child->getNodeType();
       return ((kidOK[p] & 1<<ch) != 0) ||
